@@ -91,7 +91,7 @@ pub fn run(args: &Args, rep: &mut Report) {
     // compresses the same strings in another order gets byte-identical outputs
     if !kept.is_empty() {
         let kept2 = kept.clone();
-        let res = std::thread::spawn(move || {
+        let res = std::thread::Builder::new().name("vh-replay".into()).spawn(move || {
             let mut bad: Option<String> = None;
             let mut differ = 0u64;
             for (data, level, c, p) in kept2.iter().rev() {
@@ -111,6 +111,7 @@ pub fn run(args: &Args, rep: &mut Report) {
             }
             (bad, differ)
         })
+        .expect("spawn replay thread")
         .join()
         .unwrap_or((Some("panic: replay thread panicked".into()), 0));
         rep.count("replayed_strings_with_different_compressed_bytes", res.1);
